@@ -307,7 +307,7 @@ func (ex *Exec) compTerm(st *State, comp string) string {
 	if hc.isArr {
 		return ex.heapGet(st, comp, hc.typ)
 	}
-	st.heap[comp] = ex.initialComp(comp)
+	st.heap[comp] = ex.initialCompIn(st, comp)
 	return st.heap[comp]
 }
 
@@ -656,7 +656,7 @@ func (ex *Exec) ghostCur(st *State, comp string) string {
 	if t, ok := st.ghost[comp]; ok {
 		return t
 	}
-	n := ex.initialComp(comp)
+	n := ex.initialCompIn(st, comp)
 	st.ghost[comp] = n
 	return n
 }
